@@ -369,3 +369,26 @@ def queue_pop_advances(run, F):
                 if not (a1.get('op') == 'path' and last_field(a1.get('p', '')) == nxt):
                     run.violation(q, 'pop-does-not-advance', '%s:%s' % (f['file'], G.line(n)),
                                   '%s is exchanged with %s instead of the popped item\'s %s: the rest of the queue is dropped' % (head, a1.get('p'), nxt))
+
+
+@rule('R-CANCEL-FLAG', ['C15', 'C16', 'C19'], floor=2)
+def cancel_flag_before_forward(run, F):
+    """operations whose forward_set_value() chooses done over value by a `cancelled_` member (v2 async_mutex lock, async_pass call/throw): in stop(), every path that starts the completion forwarder first sets that flag - otherwise a cancelled waiter that never owned the lock (or whose payload was never transferred) completes with value"""
+    n = 0
+    for r in F.recs:
+        flds = {fl['name'] for fl in r['fields']}
+        if 'cancelled_' not in flds: continue
+        fwd = [fl['name'] for fl in r['fields'] if 'completion_forwarder' in ((fl.get('wtype') or '') + fl.get('type', ''))]
+        if not fwd: continue
+        stops = [g for g in F.by_record.get(r['qname'], []) if g['name'] == 'stop' and g.get('blocks')]
+        for g in stops:
+            G = Graph(g)
+            starts = [m for m, e in G.ev.items() if e.get('k') == 'call' and e['callee'].get('name') == 'start' and last_field(e['callee'].get('base') or '') in fwd]
+            sets = {m for m, e in G.ev.items() if e.get('k') == 'assign' and last_field(e.get('lhs') or '') == 'cancelled_' and (e.get('rhs') or {}).get('p') == '#true'}
+            for m in starts:
+                n += 1
+                run.inst(site(g, G.line(m)), 'forwarder started in stop() only after cancelled_ = true', key=(r['qname'], G.line(m)))
+                if not G.dominated_by_any(m, sets):
+                    run.violation(g['qname'], 'forward-without-cancel-flag', '%s:%s' % (g['file'], G.line(m)),
+                                  'stop() of %s starts its completion forwarder on a path that has not set cancelled_: forward_set_value() then delivers set_value for an operation that was cancelled (a lock waiter that never owned the mutex completes as its owner)' % r['qname'].replace('unifex::', ''))
+    if n == 0: raise Broken('no stop() hook with a cancelled_ flag and a completion forwarder found')
